@@ -15,6 +15,8 @@ CONSTANTS Proposers,     \* nodes on which clients call propose(); the k-th call
           Quiet          \* TRUE: clients call propose() only while no Prepare is in flight (a smaller
                          \* envelope: quick-tier run of the corrected design and the sensitivity run
                          \* of the restart deviation; the thorough tier explores Quiet = FALSE)
+CONSTANT  Lost           \* set of <<type, src, dst>>: messages of that kind on that link are lost for
+                         \* the whole run (e.g. a Prepare that its Accept overtakes for good)
 CONSTANT  Cut            \* set of node pairs {a, b} that are partitioned for the whole run: messages
                          \* between them are never delivered (e.g. {{1,3}}; {} = fully connected)
 
@@ -32,6 +34,11 @@ RECURSIVE Resolve(_, _, _)
 Resolve(fs, res, i) ==
     IF i > Len(res) THEN fs
     ELSE Resolve(IF fs[res[i][1]].val = Pending THEN [fs EXCEPT ![res[i][1]].val = res[i][2]] ELSE fs, res, i + 1)
+
+LostNone == {}
+\* n2 and n3 compete with the same ballot number; n3's Prepare never reaches n1 (its Accept does),
+\* n2's Prepare never reaches n3
+LostOvertake == {<<"prepare", 3, 1>>, <<"prepare", 2, 3>>}
 
 Init ==
     /\ node = [n \in Nodes |-> InitNode]
@@ -66,6 +73,7 @@ ClientPropose(n, v) ==
 Deliver(m) ==
     /\ BagIn(m, msgs)
     /\ {m.src, m.dst} \notin Cut
+    /\ <<m.t, m.src, m.dst>> \notin Lost
     /\ LET r == Handle(node[m.dst], m) IN
        /\ r.ns.cur <= MaxBallot
        /\ Apply(m.dst, r, SetToBag({m}))
